@@ -997,6 +997,11 @@ def run_c01(chk, prog):
     chk.notes.append("Decides three structural clauses; the round trip follows by lemma L1: (O1) Data <= 255 typestate (A5 + guard dominance); (O2-O4) the encoder emits ':' then, for each byte of "
                      "[len, addr_hi, addr_lo, type, data.., -sum], its high and low nibble through the upper-case table, optionally followed by CRLF (A3 bit provenance / affine mod 256); "
                      "(O5) the decoder binds the same fields from the regex groups at offsets 1,3,7,9,.. parsed base 16 (A2 + A6).")
+    # the two encodings also exist in stream form (Frame::write = to_bytes_with_newline to a sink, Frame::read = one line through
+    # from_bytes): C15's rule set is a leg of the codec property
+    import p_io
+    n = chk.include("C01.stream", p_io.run_c15, prog)
+    chk.floor("C01.stream", "obligations on Frame::write / Frame::read (C15)", n, 15)
     cx = Codec(prog)
     data_typestate(chk, cx, "C01.O1")
     payload_rules(chk, cx, "C01.O2")
